@@ -41,7 +41,17 @@ def run(report, db, tier):
                      'parameter order; the result goes to join()')
     fi = db.get_func(ENC, 'generate_verification_hash')
     S = SymEval(db)
-    term = S.run(fi)
+    try:
+        term = S.run(fi)
+    except AnalysisError:
+        # not one straight-line term: look for a hand-written signed
+        # conversion helper and treat it as a unit of its own
+        helper = find_conversion_helper(db, fi)
+        if helper is None:
+            raise
+        S.opaque = {helper}
+        term = S.run(fi)
+        term = manual_signed(report, R2, db, helper, term)
     report.note('extracted term', repr(term))
     params = fi.params
     if len(params) != 3:
@@ -187,3 +197,115 @@ def run(report, db, tier):
             report.violation(R3, 'use-site:join', caller.path, cs.node,
                              caller.qualname, 'the hash is not what is '
                              'passed to auth_token.join()')
+
+
+def find_conversion_helper(db, fi):
+    """An in-repo function reachable from the hash function that turns the
+    digest bytes into a number without being a straight-line term."""
+    mod = fi.module
+    for name, f in mod.funcs.items():
+        if f is fi:
+            continue
+        src = ast.unparse(f.node)
+        if 'signed' in f.params and ('16)' in src or 'from_bytes' in src):
+            try:
+                terms.straight_line_value(f)
+            except AnalysisError:
+                return f
+    return None
+
+
+def manual_signed(report, R2, db, helper, term):
+    """helper(b, signed): unsigned big-endian value of b, minus 2**(8*len(b))
+    under a test that must be `signed and first byte >= 0x80`.  The test is
+    folded over all 256 first-byte values.  Returns the term with the helper
+    call replaced by the equivalent int.from_bytes term."""
+    from ..fold import Folder, Env, FoldRaise
+    b = helper.params[0]
+    body = [st for st in helper.body if not (isinstance(st, ast.Expr)
+                                            and isinstance(st.value,
+                                                           ast.Constant))]
+    init = [st for st in body if isinstance(st, ast.Assign)]
+    ifs = [st for st in body if isinstance(st, ast.If)]
+    rets = [st for st in body if isinstance(st, ast.Return)]
+    if len(init) != 1 or len(ifs) != 1 or len(rets) != 1 or \
+            not isinstance(init[0].targets[0], ast.Name):
+        raise AnalysisError('signed conversion helper %s: shape not '
+                            'recognised' % helper.name, helper.node,
+                            rel(helper.path))
+    num = init[0].targets[0].id
+    iv = ast.unparse(init[0].value).replace(' ', '')
+    unsigned_forms = ('int(hexlify(%s)orb\'0\',16)' % b,
+                      'int(hexlify(%s),16)' % b, 'int(%s.hex(),16)' % b,
+                      'int(binascii.hexlify(%s),16)' % b,
+                      "int.from_bytes(%s,'big')" % b,
+                      "int.from_bytes(%s,byteorder='big')" % b)
+    if iv not in unsigned_forms:
+        raise AnalysisError('signed conversion helper %s: unsigned value is '
+                            '%s' % (helper.name, iv), init[0],
+                            rel(helper.path))
+    st = ifs[0]
+    sub = [x for x in st.body if isinstance(x, ast.AugAssign)
+           and isinstance(x.op, ast.Sub) and ast.unparse(x.target) == num]
+    amount = ast.unparse(sub[0].value).replace(' ', '') if len(sub) == 1 \
+        else None
+    good_amounts = ('1<<len(%s)*8' % b, '1<<8*len(%s)' % b,
+                    '2**(len(%s)*8)' % b, '2**(8*len(%s))' % b,
+                    '1<<(len(%s)*8)' % b, '1<<(8*len(%s))' % b)
+    if len(st.body) != 1 or st.orelse or amount not in good_amounts or \
+            ast.unparse(rets[0].value) != num:
+        raise AnalysisError('signed conversion helper %s: the correction is '
+                            'not `num -= 2**(8*len(b))`' % helper.name, st,
+                            rel(helper.path))
+    # fold the test over signed in {True, False} x first byte 0..255
+    import copy
+    F = Folder(db)
+
+    class Sub(ast.NodeTransformer):
+        def visit_Call(self, n):
+            if isinstance(n.func, ast.Name) and n.func.id == 'ord':
+                return ast.Name(id='__first__', ctx=ast.Load())
+            return self.generic_visit(n)
+    test = Sub().visit(copy.deepcopy(st.test))
+    ast.fix_missing_locations(test)
+    bad = []
+    for signed in (True, False):
+        for k in range(256):
+            env = Env(helper.module)
+            env.vars['signed'] = signed
+            env.vars[helper.params[1]] = signed
+            env.vars['__first__'] = k
+            env.vars[b] = bytes([k]) + b'\x00' * 19
+            try:
+                got = bool(F.truth(F.eval(test, env), test, env))
+            except (AnalysisError, FoldRaise) as e:
+                raise AnalysisError('signed conversion helper %s: sign test '
+                                    'does not fold: %s' % (helper.name, e),
+                                    st, rel(helper.path))
+            if got != (signed and k >= 0x80):
+                bad.append((signed, k, got))
+    if bad:
+        sg, k, got = bad[0]
+        report.violation(R2, 'manual-sign-test', helper.path, st.test,
+                         helper.qualname, 'a digest whose first byte is '
+                         '0x%02X is treated as %s (signed=%s); %d first-byte '
+                         'value(s) are mis-signed, so such digests print as '
+                         'a 40-digit positive number instead of Java\'s '
+                         'negative one' % (k, 'negative' if got
+                                           else 'non-negative', sg,
+                                           len(bad)))
+    else:
+        report.ok(R2, 'hand-written signed conversion: negative iff signed '
+                  'and first byte >= 0x80 (256 x 2 cases folded)')
+
+    def rewrite(t):
+        if isinstance(t, CallT) and t.func == helper.qualname:
+            return CallT('int.from_bytes', list(t.args[:1]) + [Const('big')],
+                         {'signed': t.kw(helper.params[1],
+                                         t.args[1] if len(t.args) > 1
+                                         else Const(False))})
+        if isinstance(t, CallT):
+            return CallT(t.func, [rewrite(a) for a in t.args],
+                         {k: rewrite(v) for k, v in t.kwargs})
+        return t
+    return rewrite(term)
